@@ -88,9 +88,12 @@ UGeneric == Universe(<<
     Field("q", "17", FALSE, Lf("i16")), Field("r", "18", FALSE, Lf("i32")), Field("s", "19", FALSE, Lf("u64")) >>, <<>>),
   TNewtype("s6", "W", Un("vec", Un("vec", MapT(Str, ResT(Lf("unit"), Ext("s6", "G")))))) >>)
 
+\* two definitions with the same name in different schemas, both referenced by one type
 UTwoSchemas == Universe(<<
-  TStruct("x", "A", <<Field("b", "1", FALSE, Ext("y", "A"))>>, <<>>),
-  TStruct("y", "A", <<Field("v", "1", FALSE, U8)>>, <<>>) >>)
+  TStruct("x", "A", <<Field("b", "1", FALSE, Ext("y", "A")), Field("c", "2", FALSE, Ext("x", "B")), Field("d", "3", FALSE, Ext("y", "B"))>>, <<>>),
+  TStruct("y", "A", <<Field("v", "1", FALSE, U8)>>, <<>>),
+  TStruct("x", "B", <<Field("w", "1", FALSE, U8)>>, <<>>),
+  TStruct("y", "B", <<Field("w", "1", FALSE, U8)>>, <<>>) >>)
 
 Universes == <<[name |-> "bookmarks_v2", P |-> UBookmarks], [name |-> "test", P |-> UTest], [name |-> "simple", P |-> USimple],
                [name |-> "nested", P |-> UNested], [name |-> "rec", P |-> URec], [name |-> "mutual", P |-> UMutual],
